@@ -950,3 +950,67 @@ func (st *State) timerOf(p *Value) *Timer {
 }
 
 var _ = sort.Strings
+
+// ---------- strings.Builder (its real code uses unsafe)
+
+func sbBuf(p *Value) *Value {
+	if p == nil {
+		panic(goPanic{mkRuntimeError("invalid memory address or nil pointer dereference")})
+	}
+	s := (*p).(Struct)
+	return &s[1]
+}
+
+func sbAppend(st *State, p *Value, s string) {
+	cell := sbBuf(p)
+	cur := (*cell).(Slice)
+	out := append([]Value{}, cur.A...)
+	for i := 0; i < len(s); i++ {
+		out = append(out, BVC(8, uint64(s[i])))
+	}
+	*cell = Slice{A: out}
+}
+
+func init() {
+	in := func(name string, f intrinsic) { intrinsics[name] = f }
+	in("internal/abi.NoEscape", func(st *State, c *frame, fn *ssa.Function, a []Value) Value { return a[0] })
+	in("(*strings.Builder).WriteString", func(st *State, c *frame, fn *ssa.Function, a []Value) Value {
+		s := st.concStrV(a[1])
+		sbAppend(st, a[0].(*Value), s)
+		return Tuple{BVC(64, uint64(len(s))), Iface{}}
+	})
+	in("(*strings.Builder).WriteByte", func(st *State, c *frame, fn *ssa.Function, a []Value) Value {
+		sbAppend(st, a[0].(*Value), string([]byte{byte(st.concretise(a[1].(*Term), "byte"))}))
+		return Iface{}
+	})
+	in("(*strings.Builder).WriteRune", func(st *State, c *frame, fn *ssa.Function, a []Value) Value {
+		s := string(rune(int32(st.concretise(a[1].(*Term), "rune"))))
+		sbAppend(st, a[0].(*Value), s)
+		return Tuple{BVC(64, uint64(len(s))), Iface{}}
+	})
+	in("(*strings.Builder).Write", func(st *State, c *frame, fn *ssa.Function, a []Value) Value {
+		b := a[1].(Slice)
+		bs := make([]byte, len(b.A))
+		for i, e := range b.A {
+			bs[i] = byte(st.concretise(e.(*Term), "byte"))
+		}
+		sbAppend(st, a[0].(*Value), string(bs))
+		return Tuple{BVC(64, uint64(len(bs))), Iface{}}
+	})
+	in("(*strings.Builder).String", func(st *State, c *frame, fn *ssa.Function, a []Value) Value {
+		cur := (*sbBuf(a[0].(*Value))).(Slice)
+		bs := make([]byte, len(cur.A))
+		for i, e := range cur.A {
+			bs[i] = byte(st.concretise(e.(*Term), "byte"))
+		}
+		return string(bs)
+	})
+	in("(*strings.Builder).Len", func(st *State, c *frame, fn *ssa.Function, a []Value) Value {
+		return BVC(64, uint64(len((*sbBuf(a[0].(*Value))).(Slice).A)))
+	})
+	in("(*strings.Builder).Reset", func(st *State, c *frame, fn *ssa.Function, a []Value) Value {
+		*sbBuf(a[0].(*Value)) = Slice{Nil: true}
+		return nil
+	})
+	in("(*strings.Builder).Grow", func(st *State, c *frame, fn *ssa.Function, a []Value) Value { return nil })
+}
